@@ -1,15 +1,16 @@
 ---------------------------- MODULE LatticeTrace ----------------------------
 (* I->S for C05 (exact part): lattice runs of the real BuildSystem / RandomWalk with random draws are validated  *)
-(* against LatticeWalk: every draw index must lead to the position the code computed, accepted iff the site is free *)
+(* against LatticeWalk: every draw index must lead to the position the code computed, accepted iff the spec     *)
+(* accepts it (site free; with Force also the force criterion with the neighbours of the system being built).   *)
+(* One trace = one process: the systems of Doc.history built one after the other ("build" events in between).   *)
 EXTENDS LatticeWalk, Json, IOUtils
 VARIABLES tid, l
 Doc == JsonDeserialize(IOEnv.TRACE_FILE)
 Traces == Doc.traces
-TChains == Doc.chains
+THistory == [b \in 1..Len(Doc.history) |-> [chains |-> Doc.history[b].chains, closed |-> ToSet(Doc.history[b].closed), stars |-> ToSet(Doc.history[b].stars)]]
 TGrid == { <<g[1], g[2], g[3]>> : g \in ToSet(Doc.grid) }
 TBundle == Doc.bundle
-NoDev == [noWrap |-> FALSE, noOverlapTest |-> FALSE, neighboursExempt |-> FALSE]
-TClosed == ToSet(Doc.closed)
+NoDev == [noWrap |-> FALSE, noOverlapTest |-> FALSE, neighboursExempt |-> FALSE, noForceTest |-> FALSE, staleNeighbours |-> FALSE]
 ASSUME TLCSet(1, {}) /\ TLCSet(2, [t \in 1..Len(Traces) |-> 0])
 Evs == Traces[tid]
 Ev == Evs[l]
@@ -24,6 +25,7 @@ TNext == \/ (Is("start") /\ Ev.m = mol /\ Ev.ok /\ StartOk(Pt(Ev.g)) /\ ObsOK /\
          \/ (Is("draw") /\ Ev.m = mol /\ Ev.r = k /\ ~Ev.ok /\ DrawReject(Ev.i) /\ Target(Ev.i) = Pt(Ev.to) /\ Consume)
          \/ (Is("abandon") /\ Ev.m = mol /\ Abandon /\ Consume)
          \/ (Is("accept") /\ Ev.m = mol /\ Accept /\ Consume)
+         \/ (Is("build") /\ Ev.b = build + 1 /\ NextBuild /\ Consume)
 TSpec == TInit /\ [][TNext]_<<vars, tid, l>>
 Mark == (l = Len(Evs) + 1 /\ pc = "done") => TLCSet(1, TLCGet(1) \cup {tid})
 Prog == TLCSet(2, [TLCGet(2) EXCEPT ![tid] = IF @ < l - 1 THEN l - 1 ELSE @])
